@@ -27,8 +27,12 @@ class Hang(BaseException):
     pass
 
 
+_armed = False
+
+
 def _on_alarm(signum, frame):
-    raise Hang()
+    if _armed:
+        raise Hang()
 
 
 _installed = False
@@ -54,10 +58,17 @@ class timeout:
         self.sec = sec
 
     def __enter__(self):
+        global _armed
         install_watchdog()
-        signal.setitimer(signal.ITIMER_REAL, self.sec)
+        _armed = True
+        # Repeating: an exception raised by the handler while the interpreter happens to be
+        # inside a GC callback (hypothesis installs one) or a __del__ is swallowed as
+        # "unraisable"; the next tick raises again.
+        signal.setitimer(signal.ITIMER_REAL, self.sec, 0.2)
 
     def __exit__(self, *a):
+        global _armed
+        _armed = False
         signal.setitimer(signal.ITIMER_REAL, 0)
         return False
 
